@@ -188,6 +188,20 @@ func gridAlphabet(name string) []gq {
 				}
 			}
 		}
+	case "layers":
+		// two heights that never merge with each other, centres one cell apart,
+		// extents chosen so that a merge (20 % towards the sample) moves edges
+		// across cell boundaries both ways: planes leave and enter cells that
+		// hold other planes
+		for _, x := range []float32{-1, 1, 3} {
+			for _, z := range []float32{1, 3} {
+				for _, y := range []float32{0, 1} {
+					for _, e := range []float32{0.2, 1.1, 2.3} {
+						out = append(out, gq{x, y, z, e, e})
+					}
+				}
+			}
+		}
 	case "wide":
 		for _, x := range []float32{-5, -2.5, -0.5, 0, 0.5, 1, 3, 5} {
 			for _, z := range []float32{-5, -0.5, 0.5, 1, 5} {
@@ -380,6 +394,14 @@ func init() {
 			p, _ := json.Marshal(gridParams{Depth: depth, Alphabet: alpha, Shard: i, Shards: sh})
 			jobs = append(jobs, check.Job{Kind: "grid", Name: "GRID:" + alpha, Params: p, BudgetS: budget})
 		}
+		ld, lsh := 3, 4
+		if tier == "thorough" {
+			ld, lsh = 4, 16
+		}
+		for i := 0; i < lsh; i++ {
+			p, _ := json.Marshal(gridParams{Depth: ld, Alphabet: "layers", Shard: i, Shards: lsh})
+			jobs = append(jobs, check.Job{Kind: "grid", Name: "GRID:layers", Params: p, BudgetS: budget})
+		}
 		wsh := 8
 		for i := 0; i < wsh; i++ {
 			p, _ := json.Marshal(gridParams{Depth: 2, Alphabet: "wide", Shard: i, Shards: wsh})
@@ -400,7 +422,7 @@ func init() {
 		}
 		return jobs
 	}, check.PropInfo{
-		Rule:        "(b) primitives (dot, cross, normal, overlap test, ray-quad intersection) over the full product of a 13-value float32 alphabet per coordinate against math/big references (cases whose exact intermediate exceeds float32 range, or that sit on a decision boundary within rounding, are counted as skipped); (a) the grid alone through its exported API, built as the module builds it (NewRegularGrid(1,1,2)): explicit-state BFS over insertion sequences from a lattice of quads (appends, merges, cascades, growth in all directions); in every reached state: every stored plane registered in every cell its footprint overlaps, a covering region query returns each plane exactly once, a vertical ray through each centre hits a plane, bounds contain every footprint, PlaneCount = distinct planes, no panic; (c) session level: S1 family groundplane (samples shared by members and retained across joins/leaves) and S2 blocks (concurrent inserts, insert vs region query, merge vs region query, last departure vs join) under every interleaving with a bounded number of preemptions",
+		Rule:        "(b) primitives (dot, cross, normal, overlap test, ray-quad intersection) over the full product of a 13-value float32 alphabet per coordinate against math/big references (cases whose exact intermediate exceeds float32 range, or that sit on a decision boundary within rounding, are counted as skipped); (a) the grid alone through its exported API, built as the module builds it (NewRegularGrid(1,1,2)): explicit-state BFS over insertion sequences from three lattices of quads (small: appends, merges, cascades; wide: growth in all directions; layers: two heights, merges that move plane edges across cell boundaries so that planes leave and enter cells holding other planes); in every reached state: every stored plane registered in every cell its footprint overlaps, a covering region query returns each plane exactly once, a vertical ray through each centre hits a plane, bounds contain every footprint, PlaneCount = distinct planes, no panic; (c) session level: S1 family groundplane (samples shared by members and retained across joins/leaves) and S2 blocks (concurrent inserts, insert vs region query, merge vs region query, last departure vs join) under every interleaving with a bounded number of preemptions",
 		Assumptions: []string{"quads are horizontal with positive half-extents on a finite lattice bounded by 64 m", "states de-duplicated by a canonical dump of the exported grid fields"},
 	})
 }
